@@ -21,7 +21,7 @@ ASSUMPTIONS = ["dyadic penalties", "solver feasible"]
 
 
 def budget(tier):
-    return 500 if tier == "quick" else 10000
+    return 1500 if tier == "quick" else 15000
 
 
 def gen(rng, index, tier):
